@@ -70,6 +70,8 @@ HInit(cfg) ==
      \* concurrent cache, C12: the recency order as maintenance has built it, from the maintenance
      \* events alone (mrec)
      mrec |-> <<>>,
+     \* concurrent cache, C04: the excess over max_capacity at the last quiescent sync()
+     exq |-> 0,
      eager |-> TRUE, await |-> FALSE, nget |-> 0, napplied |-> 0,
      anyinv |-> FALSE]     \* C07: some invalidation call has been made
 
@@ -281,7 +283,10 @@ Allowed_C04(hs, pre, e) ==
     THEN /\ IF HasPrelude(hs, e) THEN ExcessT(hs, e.snap) <= GrowthOf(pre, e)
             ELSE ExcessT(hs, e.snap) <= ExcessT(hs, pre)
          /\ FreshOversize(hs, pre, e) => e.k \notin KeysIn(e.snap.res)
-    ELSE /\ (e.ev = "Sync" /\ Quiescent(e.snap)) => ExcessT(hs, e.snap) <= hs.growth
+    ELSE \* what earlier growth left over the bound is removed by the following maintenance runs (how
+         \* many it takes depends on the eviction batch: each run must at least make progress)
+         /\ (e.ev = "Sync" /\ Quiescent(e.snap)) =>
+               ExcessT(hs, e.snap) <= hs.growth + (IF hs.exq > 0 THEN hs.exq - 1 ELSE 0)
          /\ (e.ev = "Sync" /\ hs.pend.on /\ hs.pend.fresh /\ hs.pend.now = e.now
                /\ Quiescent(e.snap) /\ hs.cfg.cap # None /\ hs.pend.w > hs.cfg.cap)
             => ~(hs.pend.k \in KeysIn(e.snap.res) /\ Ent(e.snap.res, hs.pend.k).v = hs.pend.v)
@@ -662,6 +667,8 @@ HUpdate(P, hs, pre, e) ==
     IN [h1 EXCEPT !.within = IF P \cap {"C03", "C07"} # {} THEN within1 ELSE hs.within,
                   !.anyinv = IF needVis THEN (hs.anyinv \/ isInv) ELSE hs.anyinv,
                   !.rec = IF needRec THEN RecUpdate(hs, e) ELSE hs.rec,
+                  !.exq = IF "C04" \in P /\ IsSync(hs) /\ e.ev = "Sync" /\ Quiescent(e.snap)
+                          THEN ExcessT(hs, e.snap) ELSE hs.exq,
                   !.mrec = IF "C12" \in P /\ MrecApplies(hs, e) THEN MxFold(MrecAtCall(hs, e), e.mx) ELSE hs.mrec,
                   !.vis = IF needVis THEN vis1 ELSE hs.vis,
                   !.visnow = IF needVis THEN e.now ELSE hs.visnow,
